@@ -324,22 +324,14 @@ class FakePool:
         self.joined = True
 
 
-def diag_raises_class(op):
-    """finding F06b: a term without X / Y carries a complex-typed coefficient"""
-    import numpy
-    for t, c in op.terms.items():
-        if all(a == 'Z' for _, a in t) and isinstance(c, (complex, numpy.complexfloating)):
-            return True
-    return False
-
-
 def stream_linear(ctx):
     of = ctx.of
     import numpy
     from openfermion.linalg import linear_qubit_operator as lq
     from openfermion.linalg import sparse_tools as stl
     st = Stream('linear-operators', 'LinearQubitOperator on basis vectors and random dyadic complex vectors (<= 5 qubits, '
-                'n_qubits up to +2), as a matrix (operator * identity); get_linear_qubit_operator_diagonal; '
+                'n_qubits up to +2), as a matrix (operator * identity); get_linear_qubit_operator_diagonal incl. complex-typed '
+                '(python / numpy) coefficients on Z-only terms; '
                 'get_operator_groups(k) and ParallelLinearQubitOperator with a fake pool delivering the group results '
                 'in every permutation (<= 4 groups; sampled beyond) for 1..5 processes; all compared exactly with the '
                 'Model and with the Spec matrix-vector product; distinct = distinct (operator, n, vector / k, order)')
@@ -413,8 +405,7 @@ def stream_linear(ctx):
             kind, dg = safe(stl.get_linear_qubit_operator_diagonal, op, n_arg)
             if kind == 'err':
                 st.count('diagonal:raised')
-                st.violate('diagonal-raised: get_linear_qubit_operator_diagonal raised %s' % dg.split(':')[0], dcase,
-                           {'error': dg, 'f06b_class': diag_raises_class(op)})
+                st.violate('get_linear_qubit_operator_diagonal raised %s' % dg.split(':')[0], dcase, {'error': dg})
             else:
                 st.count('diagonal:ok')
                 de = [fr(v) for v in dg]
@@ -431,6 +422,55 @@ def stream_linear(ctx):
                         st.violate('diagonal != diagonal of the matrix of the operator', dcase,
                                    {'got': [str(v) for v in de[:8]], 'want': [str(v) for v in want[:8]]})
                 B.ask({'op': 'c06.spec_matrix', 'alg': 'qubit', 'n': n, 'a': jop}, cbds)
+
+    # complex-typed coefficients on X/Y-free terms (what every transform of the library emits): an ordinary case
+    for k in range(budget(ctx.tier, 40, 400)):
+        nq = rng.randint(1, 4)
+        op = of.QubitOperator()
+        for _ in range(rng.randint(1, 4)):
+            qs = sorted(rng.sample(range(nq), rng.randint(0, nq)))
+            acts = 'Z' if rng.random() < 0.8 else 'XYZ'
+            t = tuple((q, rng.choice(acts)) for q in qs)
+            c = complex(rng.randint(-4, 4) / 2 ** rng.randint(0, 2), rng.choice([0, 0, -3, -1, 1, 2]) / 2 ** rng.randint(0, 2))
+            if k % 3 == 0:
+                c = numpy.complex128(c)
+            op.terms[t] = c
+        jop = enc_op('qubit', op.terms)
+        cnt = of.count_qubits(op)
+        extra = rng.choice([None, 0, 1])
+        n_arg = None if extra is None else cnt + extra
+        n = cnt if n_arg is None else n_arg
+        dim = 2 ** n
+        dcase = {'fn': 'get_linear_qubit_operator_diagonal', 'a': jop, 'n_qubits': n_arg,
+                 'coefficient_types': sorted({type(c).__name__ for c in op.terms.values()})}
+        st.case(dcase)
+        st.count('diagonal:complex-typed')
+        kind, dg = safe(stl.get_linear_qubit_operator_diagonal, op, n_arg)
+        if kind == 'err':
+            st.violate('get_linear_qubit_operator_diagonal raised %s' % dg.split(':')[0], dcase, {'error': dg})
+            continue
+        if len(dg) != dim:
+            st.violate('diagonal has length %d, not 2^n = %d' % (len(dg), dim), dcase, None)
+            continue
+        de = [fr(v) for v in dg]
+
+        def cbd2(m, de=de, dcase=dcase):
+            if 'error' in m or j_vec(m['diag']) != de:
+                st.disagree('diagonal', dcase, [str(v) for v in de[:8]], m)
+        B.ask({'op': 'c06.diagonal', 'a': jop, 'n': n_arg}, cbd2)
+
+        def cbds2(s_, de=de, dcase=dcase, dim=dim):
+            st.count('oracle:spec-diagonal')
+            S = j_entries(s_)
+            want = [S.get((i, i), (Fraction(0), Fraction(0))) for i in range(dim)]
+            if want != de:
+                st.violate('diagonal != diagonal of the matrix of the operator', dcase,
+                           {'got': [str(v) for v in de[:8]], 'want': [str(v) for v in want[:8]]})
+        B.ask({'op': 'c06.spec_matrix', 'alg': 'qubit', 'n': n, 'a': jop}, cbds2)
+    # too few qubits: ValueError
+    kind, r = safe(stl.get_linear_qubit_operator_diagonal, of.QubitOperator('Z3'), 2)
+    if not (kind == 'err' and r.startswith('ValueError')):
+        st.violate('get_linear_qubit_operator_diagonal with too few qubits did not raise ValueError', {}, str(r)[:100])
 
     # operator groups and the parallel operator
     for k in range(budget(ctx.tier, 100, 800)):
@@ -790,28 +830,6 @@ def stream_numeric(ctx):
 
 def run(ctx):
     return [stream_sparse(ctx), stream_linear(ctx), stream_boson(ctx), stream_numeric(ctx)]
-
-
-def classify(v):
-    """F06b: get_linear_qubit_operator_diagonal raises (numpy casting error) when a term without X / Y has a
-    complex-typed coefficient (`zeros(float) += complex * ...`)."""
-    if v.get('what', '').startswith('diagonal-raised') and 'UFuncTypeError' in v.get('what', ''):
-        d = v.get('detail') or {}
-        if d.get('f06b_class'):
-            return 'F06b'
-    return None
-
-
-def probe_known(ctx, k):
-    if k.get('id') != 'F06b':
-        return False
-    of = ctx.of
-    from openfermion.linalg import sparse_tools as stl
-    try:
-        stl.get_linear_qubit_operator_diagonal(of.QubitOperator('Z0', 1 + 0j))
-    except Exception:
-        return True
-    return False
 
 
 def replay(ctx, payload):
